@@ -10,6 +10,7 @@ import (
 
 	"verif/core"
 	"verif/qenv"
+	"verif/simdisk"
 )
 
 // QCfg parameterises a random producer/consumer history on one queue.
@@ -26,6 +27,7 @@ type QCfg struct {
 	LagMax      int  // the consumer lets at most this many events pile up (0: no limit)
 	FillUp      bool // producer runs until the file is full, then the consumer drains
 	RecordIO    bool // record the I/O calls of the file (crash points)
+	FaultPct    int  // percentage of explicit flushes that hit a transient injected I/O failure (then retried)
 	MidReopen   int  // percentage of chunked events after whose first flushed part the queue is closed and reopened
 }
 
@@ -172,6 +174,24 @@ func RunQueueHistory(c QCfg) (tr *core.Trace, env *qenv.Env) {
 			}
 			unread++
 		case r < 60:
+			if c.FaultPct > 0 && rng.Intn(100) < c.FaultPct {
+				// a transient I/O error while the flush commits; the retry must make the events durable
+				k, n := rng.Intn(3), 0
+				kind := []string{"w", "w", "sync"}[rng.Intn(3)]
+				e.Disk.Fault = func(op string, nth, idx int) simdisk.FaultMode {
+					if op != kind {
+						return simdisk.NoFault
+					}
+					n++
+					if n == k+1 {
+						return simdisk.FailBefore
+					}
+					return simdisk.NoFault
+				}
+				e.Emit(core.Event{"ev": "Note", "what": "fault-armed", "kind": kind, "k": k})
+				e.Flush()
+				e.Disk.Fault = nil
+			}
 			e.Flush()
 		case r < 88:
 			n := 1 + rng.Intn(6)
